@@ -72,7 +72,7 @@ func (m *memM) snapshot() []byte {
 	return b.Bytes()
 }
 func (m *memM) recover(b []byte) {
-	if err := m.s.RecoverFromSnapshot(bytes.NewReader(b), nil, nil); err != nil {
+	if err := m.s.RecoverFromSnapshot(hx.NewShortReader(b), nil, nil); err != nil {
 		panic(err)
 	}
 }
@@ -106,7 +106,7 @@ func (m *concM) snapshot() []byte {
 	return b.Bytes()
 }
 func (m *concM) recover(b []byte) {
-	if err := m.s.RecoverFromSnapshot(bytes.NewReader(b), nil, nil); err != nil {
+	if err := m.s.RecoverFromSnapshot(hx.NewShortReader(b), nil, nil); err != nil {
 		panic(err)
 	}
 }
@@ -158,7 +158,7 @@ func (m *diskM) snapshot() []byte {
 	}
 }
 func (m *diskM) recover(b []byte) {
-	if err := m.s.RecoverFromSnapshot(bytes.NewReader(b), nil); err != nil {
+	if err := m.s.RecoverFromSnapshot(hx.NewShortReader(b), nil); err != nil {
 		panic(err)
 	}
 }
